@@ -50,6 +50,16 @@ func (rd *ReorgDetector) getTrackedBlocks() (map[string]*headersList, error) {
 
 // saveTrackedBlock saves the tracked block for a subscriber in db and in memory
 func (rd *ReorgDetector) saveTrackedBlock(id string, b header) error {
+	// The durable record goes first: a block that made it only into memory would be taken as already
+	// tracked by the next AddBlockToTrack (the driver's retry after a failed insert) and be lost on restart
+	if err := meddler.Insert(rd.db, "tracked_block", &headerWithSubscriberID{
+		SubscriberID: id,
+		Num:          b.Num,
+		Hash:         b.Hash,
+	}); err != nil {
+		return err
+	}
+
 	rd.trackedBlocksLock.Lock()
 	hdrs, ok := rd.trackedBlocks[id]
 	if !ok || hdrs.isEmpty() {
@@ -58,15 +68,11 @@ func (rd *ReorgDetector) saveTrackedBlock(id string, b header) error {
 	} else {
 		hdrs.add(b)
 	}
+	rd.trackedBlocksLock.Unlock()
 
 	rd.log.Debugf("Tracking block %d for subscriber %s", b.Num, id)
 
-	rd.trackedBlocksLock.Unlock()
-	return meddler.Insert(rd.db, "tracked_block", &headerWithSubscriberID{
-		SubscriberID: id,
-		Num:          b.Num,
-		Hash:         b.Hash,
-	})
+	return nil
 }
 
 // updateTrackedBlocksDB updates the tracked blocks for a subscriber in db
